@@ -1242,6 +1242,9 @@ impl Opcode for SelfDestruct {
         // we would lose info
         vm.state()?.record_value(destroy);
 
+        // SELFDESTRUCT halts execution, so nothing after it is on this path.
+        vm.kill_current_thread();
+
         // Done, so return ok
         Ok(())
     }
